@@ -30,6 +30,9 @@ int c_eckhardt(int nval, int timestep_type,
     double C1, C2, C3, alpha;
 
     /* Check params */
+    if(nval < 1)
+        return EDOM;
+
     if(timestep_type != 0 && timestep_type != 1)
         return EDOM;
 
